@@ -177,7 +177,7 @@ fn payload_len(rng: &mut Rng, cfg: &GenCfg, small_only: bool) -> u32 {
 }
 
 /// Chooses a payload length such that the entry ends `r` bytes before a block end.
-fn aligned_len(cursor_off: usize, name_len: usize, r: usize, extra_blocks: usize) -> Option<u32> {
+pub fn aligned_len(cursor_off: usize, name_len: usize, r: usize, extra_blocks: usize) -> Option<u32> {
     // search a small window around the analytic guess using the exact framing function
     let rem = BLOCK - cursor_off % BLOCK;
     let fixed = 11 + name_len + 12;
